@@ -47,3 +47,4 @@ CONSTANTS
  BadFrames = {}
  SendWhileDisc = TRUE
  PeerWhileDisc = FALSE
+ LateFrames = FALSE
